@@ -14,7 +14,7 @@ META = {
                   "gfapy.line.edge.common.from_to.FromTo.from_end/to_end/other_end",
                   "AlignmentType._alignment_type", "gfapy.lastpos.isfirstpos/islastpos/posvalue",
                   "Gfa.add_line", "Connection.connect"],
-    "bounds": "one E line between two segments; both orientations symbolic; beg/end of both intervals ANY integers with 0<=beg<=end (unbounded z3 Int), '$' flags on begin and end symbolic ('$' on begin only with begin==end), zero-length segments excluded",
+    "bounds": "one E line between two segments; both orientations symbolic; beg/end of both intervals ANY integers with 0<=beg<=end (unbounded z3 Int), '$' flags on begin and end symbolic ('$' on begin only with begin==end), zero-length segments excluded; after the classification checks the edge is removed and must be gone from every collection",
     "timeout": {"quick": 150, "thorough": 600}, "parts": {"quick": 4, "thorough": 4}},
   "h_e_selfedge": {
     "kind": "K/L", "functions": ["as h_e_classification, sid1 and sid2 the same segment"],
@@ -41,6 +41,16 @@ def _mkpos(v, last):
 
 def _keys_of(seg, e):
   return sorted(k for k, v in seg._refs.items() for x in v if x is e)
+
+def _gone(g, e, s1, s2):
+  """after the edge is removed it is in no collection of either segment (the graph is again the one without it)"""
+  g.rm(e)
+  for s in (s1, s2):
+    if _keys_of(s, e) != []: return False
+    if s.edges or s.dovetails or s.containments or s.internals or s.neighbours or s.containers or s.contained: return False
+  with NoTracing():
+    if nbhd.check(g): return False
+  return True
 
 def _e_check(p1, p2, b1, e1, lb1, l1, b2, e2, lb2, l2, selfedge):
   o1 = "+" if p1 else "-"
@@ -71,7 +81,7 @@ def _e_check(p1, p2, b1, e1, lb1, l1, b2, e2, lb2, l2, selfedge):
       return False
     except gfapy.ValueError:
       pass
-    return True
+    return _gone(g, e, s1, s2)
   if e._is_sid1_from() != exp["sid1_is_from"]: return False
   frm, to = (e.sid1, e.sid2) if exp["sid1_is_from"] else (e.sid2, e.sid1)
   if e.from_segment is not frm.line or e.to_segment is not to.line: return False
@@ -93,7 +103,7 @@ def _e_check(p1, p2, b1, e1, lb1, l1, b2, e2, lb2, l2, selfedge):
     if not selfedge:
       if cont.contained != [ced] or ced.containers != [cont]: return False
       if cont.containers != [] or ced.contained != []: return False
-  return True
+  return _gone(g, e, s1, s2)
 
 def edgesem_other(end):
   return "R" if end == "L" else "L"
